@@ -715,7 +715,7 @@ func main() {
 	out := flag.String("out", "", "output directory for trace chunks")
 	chunks := flag.Int("chunks", 16, "number of trace files / parallel workers")
 	scratch := flag.String("scratch", "", "directory for the small files some mutators serve")
-	hangSeq := flag.Duration("hang", 5*time.Second, "watchdog limit for one sequential history")
+	hangSeq := flag.Duration("hang", 3*time.Second, "watchdog limit for one sequential history")
 	hangConc := flag.Duration("hangconc", 90*time.Second, "watchdog limit for one concurrent history")
 	list := flag.Bool("list", false, "print the mutator table as JSON and exit")
 	obs := flag.Bool("obs", false, "print the observable components per object kind as JSON and exit")
